@@ -9,7 +9,7 @@ namespace {
 
 constexpr int MAXH = 8, MAXK = 3, MAXTOK = 256;
 
-enum BodyOp { B_TLS_SET, B_TLS_REPLACE, B_TLS_GET, B_WRITE, B_CURRENT, B_REFSELF, B_YIELD, B_SETPRIO, B_EXIT, B_TLS_SET_NULL, B_TLS_REPLACE_NULL };
+enum BodyOp { B_TLS_SET, B_TLS_REPLACE, B_TLS_GET, B_WRITE, B_CURRENT, B_REFSELF, B_YIELD, B_SETPRIO, B_EXIT, B_TLS_SET_NULL, B_TLS_REPLACE_NULL, B_TLS_REPLACE_SAME };
 struct BOp { uint8_t op, key; int arg; };
 
 struct Handle {
@@ -45,7 +45,7 @@ void dtor_fn(ppointer v) {
   if (tok <= 0 || tok >= MAXTOK) violate("tls_dtor_bad_value", "destroy notifier", "destroy notifier called with a value that was never stored (%p)", v);
   S->dtor_calls[tok]++;
   ev("harness_dtor", tok);
-  if (S->dtor_calls[tok] > 1) violate("tls_dtor_twice", "destroy notifier", "destroy notifier called twice for one stored value");
+  if (S->dtor_calls[tok] > S->dtor_expected[tok]) violate("tls_dtor_twice", "destroy notifier", "destroy notifier called %d time(s) for one stored value, %d expected so far", S->dtor_calls[tok], S->dtor_expected[tok]);
   Task *t = cur();
   bool ok = false;
   if (S->in_replace[t->id] && S->replace_old[t->id] == tok) ok = true;   // inside p_uthread_replace_local for this value
@@ -88,9 +88,10 @@ void tls_op(const BOp &o, int me) {
     (void)old;
     break;
   }
-  case B_TLS_REPLACE: case B_TLS_REPLACE_NULL: {
-    int tok = o.op == B_TLS_REPLACE ? new_token(o.key) : 0;
+  case B_TLS_REPLACE: case B_TLS_REPLACE_NULL: case B_TLS_REPLACE_SAME: {
     int old = S->tls[me][o.key];
+    // "same": the value stored is replaced by itself - it is a replaced value like any other (notifier runs), and it stays stored
+    int tok = o.op == B_TLS_REPLACE ? new_token(o.key) : o.op == B_TLS_REPLACE_SAME ? old : 0;
     if (old && K.has_dtor) S->dtor_expected[old]++;
     S->in_replace[me] = true; S->replace_old[me] = old;
     int before = old ? S->dtor_calls[old] : 0;
@@ -121,7 +122,7 @@ ppointer thread_fn(ppointer arg) {
   if (H.tid != me && H.tid != -1) violate("wrong_thread", "thread body", "body runs on an unexpected task");
   for (auto &o : H.body) {
     switch (o.op) {
-    case B_TLS_SET: case B_TLS_REPLACE: case B_TLS_GET: case B_TLS_SET_NULL: case B_TLS_REPLACE_NULL: tls_op(o, me); break;
+    case B_TLS_SET: case B_TLS_REPLACE: case B_TLS_GET: case B_TLS_SET_NULL: case B_TLS_REPLACE_NULL: case B_TLS_REPLACE_SAME: tls_op(o, me); break;
     case B_WRITE: SIM_WRITE(H.result); H.result += o.arg; H.expected_result += o.arg; break;
     case B_CURRENT: {
       PUThread *c = HX_API("p_uthread_current", 0, false, p_uthread_current());
@@ -220,11 +221,11 @@ void root() {
       BOp o; uint32_t r = gen(12);
       o.key = S->nk ? (uint8_t)gen((uint32_t)S->nk) : 0; o.arg = 1 + (int)gen(100);
       if (r < 2 && S->nk) o.op = B_TLS_SET; else if (r < 4 && S->nk) o.op = B_TLS_REPLACE; else if (r < 5 && S->nk) o.op = B_TLS_GET;
-      else if (r < 6 && S->nk) o.op = gen(2) ? B_TLS_SET_NULL : B_TLS_REPLACE_NULL;
+      else if (r < 6 && S->nk) { uint32_t q = gen(3); o.op = q == 0 ? B_TLS_SET_NULL : q == 1 ? B_TLS_REPLACE_NULL : B_TLS_REPLACE_SAME; }
       else if (r < 7) o.op = B_WRITE; else if (r < 8) o.op = B_CURRENT; else if (r < 9) o.op = B_REFSELF; else if (r < 10) o.op = B_YIELD; else if (r < 11) o.op = B_SETPRIO;
       else { o.op = B_EXIT; static const int codes[] = {0, 1, -1, 42, INT32_MAX, INT32_MIN}; o.arg = codes[gen(6)]; }
       H.body.push_back(o);
-      static const char *nm[] = {"set", "repl", "get", "wr", "cur", "refself", "yield", "prio", "exit", "set0", "repl0"};
+      static const char *nm[] = {"set", "repl", "get", "wr", "cur", "refself", "yield", "prio", "exit", "set0", "repl0", "repl-same"};
       describe("%s%s", j ? "," : "", nm[o.op]);
       if (o.op == B_EXIT) { H.has_exit_code = true; H.exit_code = o.arg; break; }
     }
@@ -240,7 +241,8 @@ void root() {
       Handle &H = S->hs[created];
       S->nh = created + 1;
       const char *name = H.has_name ? (gen(3) == 0 ? "a-thread-name-longer-than-sixteen" : "thr") : nullptr;
-      PUThread *h = HX_API("p_uthread_create", created, false, p_uthread_create(thread_fn, &H, H.joinable, name));
+      pboolean jarg = H.joinable ? (gen(4) == 0 ? (pboolean)2 : TRUE) : FALSE;      // any non-zero value means "joinable"
+      PUThread *h = HX_API("p_uthread_create", created, false, p_uthread_create(thread_fn, &H, jarg, name));
       if (!h) violate("create_returned_null", "p_uthread_create", "p_uthread_create failed");
       H.tid = shim::thread_task(shim::last_created(shim::K_THREAD));
       H.h = h; H.creator_refs = 1;
